@@ -95,6 +95,13 @@ class OverBudget(BaseException):
 
 from vt.harness import c01_gen  # noqa: E402  (pure Python: the syntactic nesting measure)
 
+# The strip markers of a process carry a per-process random string (uniq.Uniquifier.random_string, 8 bytes of os.urandom drawn when the
+# first Uniquifier is made and kept for the life of the process).  Text pasted from rendered output of the same render server can therefore
+# contain markers with the RIGHT random string.  The search fixes that string (the state of a process whose urandom returned these bytes),
+# so that the generated inputs can contain markers that are in the table of the current parse as well as markers that are not.
+from mwlib.utils import uniq as _uniq  # noqa: E402
+_uniq.Uniquifier.random_string = c01_gen.UNIQ_RAND
+
 _seen_len = [0]
 _seen_nest = [0]
 _t0 = [0.0]
@@ -313,7 +320,7 @@ def minimise(obj):
     return {"raw": raw, "db": db, "steps": steps, "reproduced": True}
 
 
-SLOW_CUT = 25
+SLOW_CUT = 10
 
 
 def main():
